@@ -291,7 +291,7 @@ impl Check for C13 {
         "proof-outline"
     }
     fn cases(&self, tier: Tier) -> usize {
-        tier.pick(5_000, 120_000)
+        tier.pick(50_000, 1_000_000)
     }
     fn strategy(&self, _tier: Tier) -> BoxedStrategy<Case> {
         (
